@@ -146,7 +146,7 @@ def pop_at_mode(model):
     return True
 
 
-def run_config(model_name, cfg, seed, workdir, n_ind=6, want_params=False, compare_to=None):
+def run_config(model_name, cfg, seed, workdir, n_ind=6, want_params=False, compare_to=None, reuse_algo=False):
     """Run one real fit under the recorder.  Returns (events, info)."""
     events = []
     model, data, df = zoo.make(model_name, n_ind=n_ind, seed=seed % 5)
@@ -176,37 +176,42 @@ def run_config(model_name, cfg, seed, workdir, n_ind=6, want_params=False, compa
                 info["exception"] = repr(e)
                 events.append(ev0)
                 return events, info
-            rec = _FitRecorder(algo, model, events, cfg)
-            rec.install()
-            started = {"done": False}
-            try:
-                if not model.is_initialized:
-                    model.initialize(dataset)
-                ev0.update(outcome="run", nb=int(algo.algo_parameters["n_burn_in_iter"]),
-                           na=int((algo.algo_parameters.get("annealing") or {}).get("n_iter") or 0))
-                events.append(ev0)
-                algo.run(model, dataset)
-                same = True
-                if compare_to is not None:
-                    cur = {k: np.asarray(v) for k, v in model.parameters.items()}
-                    same = set(cur) == set(compare_to) and all(
-                        cur[k].shape == compare_to[k].shape and np.array_equal(cur[k], compare_to[k], equal_nan=True) for k in cur)
-                events.append({"op": "RunEnd", "outcome": "done", "pop_at_mode": pop_at_mode(model),
-                               "same_as_baseline": bool(same)})
-            except LeaspyAlgoInputError as e:
-                info["exception"] = repr(e)
-                if rec.iterations_started == 0:
-                    ev0["outcome"] = "refused"
-                else:
+            for run_no in range(2 if reuse_algo else 1):
+                if run_no == 1:
+                    # the same algorithm object calibrates a second, fresh model (supported use): a new run for the specification
+                    model, data, df = zoo.make(model_name, n_ind=n_ind, seed=seed % 5)
+                    ev0 = dict(ev0)
+                    if info["exception"] is not None:
+                        break
+                rec = _FitRecorder(algo, model, events, cfg)
+                rec.install()
+                try:
+                    if not model.is_initialized:
+                        model.initialize(dataset)
+                    ev0.update(outcome="run", nb=int(algo.algo_parameters["n_burn_in_iter"]),
+                               na=int((algo.algo_parameters.get("annealing") or {}).get("n_iter") or 0))
+                    events.append(ev0)
+                    algo.run(model, dataset)
+                    same = True
+                    if compare_to is not None:
+                        cur = {k: np.asarray(v) for k, v in model.parameters.items()}
+                        same = set(cur) == set(compare_to) and all(
+                            cur[k].shape == compare_to[k].shape and np.array_equal(cur[k], compare_to[k], equal_nan=True) for k in cur)
+                    events.append({"op": "RunEnd", "outcome": "done", "pop_at_mode": pop_at_mode(model),
+                                   "same_as_baseline": bool(same)})
+                except LeaspyAlgoInputError as e:
+                    info["exception"] = repr(e)
+                    if rec.iterations_started == 0:
+                        ev0["outcome"] = "refused"
+                    else:
+                        events.append({"op": "RunEnd", "outcome": "crashed", "pop_at_mode": False, "exc": type(e).__name__,
+                                       "same_as_baseline": False})
+                except Exception as e:  # noqa: BLE001 - any crash of an accepted configuration is an observation
+                    info["exception"] = repr(e)
                     events.append({"op": "RunEnd", "outcome": "crashed", "pop_at_mode": False, "exc": type(e).__name__,
                                    "same_as_baseline": False})
-            except Exception as e:  # noqa: BLE001 - any crash of an accepted configuration is an observation
-                info["exception"] = repr(e)
-                events.append({"op": "RunEnd", "outcome": "crashed", "pop_at_mode": False, "exc": type(e).__name__,
-                                   "same_as_baseline": False})
-            finally:
-                rec.uninstall()
-                _ = started
+                finally:
+                    rec.uninstall()
             if want_params:
                 info["params"] = {k: np.asarray(v).copy() for k, v in model.parameters.items()} if info["exception"] is None else None
             info["vars"] = rec.vars
